@@ -98,7 +98,12 @@ def gen_cases(rng, tier):
                    "cs_kind": "cont", "n_workers": 2, "max_events": 90, "style": "distinct", "p_fail": 0, "max_t": 9,
                    "extra": {"num_init_random": 3, "rung_increment": 1,
                              "search_options": {"max_size_data_for_model": 12, "opt_maxiter": 5, "opt_nstarts": 1, "num_init_candidates": 5}}}
-
+    # GP searchers whose surrogate fit is restarted from randomised points (opt_nstarts = 2, the default), twins in fresh
+    # processes with different hash seeds
+    for i in range(2 if tier == "quick" else 8):
+        yield {"kind": "gp", "name": GP[i % len(GP)], "sched_seed": rng.randrange(10 ** 6), "seed": rng.randrange(10 ** 9),
+               "cs_kind": "cont", "n_workers": 2, "max_events": 40, "style": "distinct", "p_fail": 0, "max_t": 9,
+               "extra": {"brackets": 1, "num_init_random": 3, "opt_nstarts": 2}, "hash_twins": True}
 
     # simulated experiments (real Tuner + simulator backend on a synthetic table) in two fresh processes
     j = 3 if tier == "quick" else 24
@@ -244,11 +249,13 @@ def run_impl(spec):
         ev = [["suggest"]] * len(a)
     else:
         a = _sub(spec, 1)
-        b = _sub(spec, 1)
+        b = _sub(spec, 2 if spec.get("hash_twins") else 1)
+        if spec.get("hash_twins"):
+            hist["gp-twins-under-different-hash-seeds"] = 1
         d = _first_diff(a, b)
         if d:
             mon.append({"signature": f"c11:twin-diverges:{name}:fresh-process",
-                        "what": f"{name}: two fresh processes with equal seeds diverge at event {d[0]}: "
+                        "what": f"{name}: two fresh processes with equal seeds{' (PYTHONHASHSEED 1 / 2)' if spec.get('hash_twins') else ''} diverge at event {d[0]}: "
                                 f"{str(d[1])[:150]} vs {str(d[2])[:150]}", "detail": {"event": d[0]}})
         ev = a
     nsug = sum(1 for e in ev if e[0] == "suggest")
